@@ -482,7 +482,7 @@ RULE_CASES = [
     ('pattern-ml', "start = /(?x)\n a   # x\n b/ $ ;"),
     ('pattern-spaces', "start = / a/ | /a / $ ;"),
     ('pattern-nl', "start = /a\nb/ $ ;"),
-    ('pattern-nl-slash', "start = /a\n\/b/ | ?\"x/y\" | ?'x/\"y' $ ;"),
+    ('pattern-nl-slash', "start = /a\n\\/b/ | ?\"x/y\" | ?'x/\"y' $ ;"),
     ('constant-ml', "start = 'a' ```x\n  y``` $ ;"),
     ('constant-ml-ref', "start = n:'a' ```{n}\n{n}``` $ ;"),
     ('alert-ml', "start = 'a' ^^```x\n  y``` $ ;"),
